@@ -163,6 +163,17 @@ def poolsize(ctx):
     ctx.check(bool(rs) and all(c.args and dotted(c.args[0]) == "max_workers" for c in rs), rs[0] if rs else gr, "a reused executor is resized to max_workers")
     rec = [c for c in calls_in(gr) if call_name(c) == "cls.get_reusable_executor"]
     ctx.check(all(dotted(kwarg(c, "max_workers")) == "max_workers" for c in rec), rec[0] if rec else gr, "the rebuild after a broken/shutdown executor keeps max_workers")
+    rz = ctx.repo.func(RE, "_ReusablePoolExecutor._resize")
+    grz = cfg_of(rz)
+    adj = [c for c in calls_in(rz) if call_name(c) == "self._adjust_process_count"]
+    setw = [a for a in assigns_to(rz, "self._max_workers") if dotted(a.value) == "max_workers"]
+    ctx.need(adj, "_resize no longer adjusts the process count")
+    ctx.check(bool(setw) and grz.every_path_to(grz.nodes_of_all(adj), grz.nodes_of_all(setw)), adj[0], "_resize records the new size before (re)spawning workers up to it",
+              "_resize spawns workers before recording the new size: a shrinking executor respawns up to the OLD size and keeps running more than n_jobs workers")
+    apc = ctx.repo.func("joblib/externals/loky/process_executor.py", "ProcessPoolExecutor._adjust_process_count")
+    lp = [w for w in nodes_of_type(apc, ast.While)]
+    ctx.check(bool(lp) and unparse(lp[0].test) == "len(self._processes) < self._max_workers", lp[0] if lp else apc, "workers are spawned while fewer than _max_workers exist (never more)",
+              "_adjust_process_count spawns under `%s`" % (unparse(lp[0].test) if lp else None))
     zt = [n for n in nodes_of_type(gr, ast.If)]
     ctx.check(any("max_workers <= 0" in unparse(n) for n in ast.walk(gr) if isinstance(n, ast.Compare)), gr, "max_workers <= 0 is rejected")
     # abort_everything re-configures with the call's n_jobs
